@@ -30,8 +30,7 @@ Record btok := { bt_kind : bkind; bt_k : option nat; bt_data : data; bt_cols : n
    with the default setting has been fitted (b_modes then holds the number of examples of the LAST fit) *)
 Record basis_st := { bk : bkind; b_modes : option nat; b_user : option nat; b_fit : option btok }.
 
-(* basis.fit(X).  Outside the modelled domain (SVD asked for more modes than features/examples) the model
-   answers OtherError and the harness never generates it. *)
+(* basis.fit(X).  SVD asked for more modes than the data has features or examples is rejected with ValueError. *)
 Definition basis_fit (b : basis_st) (d : data) : basis_st + err :=
   match bk b with
   | Identity =>
@@ -45,7 +44,7 @@ Definition basis_fit (b : basis_st) (d : data) : basis_st + err :=
   | SVD =>
       match b_modes b with
       | None => inr OtherError
-      | Some k => if (d_width d <? k) || (d_rows d <? k) then inr OtherError
+      | Some k => if (d_width d <? k) || (d_rows d <? k) then inr ValueError      (* the data must support k modes *)
                   else inl {| bk := SVD; b_modes := Some k; b_user := b_user b;
                               b_fit := Some {| bt_kind := SVD; bt_k := Some k; bt_data := d; bt_cols := k |} |}
       end
